@@ -242,6 +242,9 @@ func (m *Morass) write() {
 
 	verifStep("write.sync", 0)
 	err = tf.Sync()
+	if herr := verifStep("write.sync.err", 0); herr != nil {
+		err = herr
+	}
 	if err != nil {
 		m.setErr(err)
 	}
